@@ -34,23 +34,27 @@ fn fsteps_coq<T: serde::de::DeserializeOwned>(bytes: &[u8]) -> (String, usize) {
 }
 fn frame(payload: &[u8]) -> Vec<u8> { let mut v = (payload.len() as u32).to_be_bytes().to_vec(); v.extend_from_slice(payload); v }
 
-struct Delivered { info: AtomicUsize, answers: AtomicUsize, queries: AtomicUsize, events: AtomicUsize }
+/// what the real readers delivered, per connection id (the ConnectionInfo the harness sent names it)
+#[derive(Default, Clone, Copy, PartialEq)]
+struct Counts { info: usize, answers: usize, queries: usize, events: usize }
+type Delivered = Mutex<std::collections::HashMap<[u8; 16], Counts>>;
 
 pub async fn frame_streams(rng: &mut Rng, out: &mut Out, stats: &mut serde_json::Map<String, serde_json::Value>) {
     let (tx, mut rx) = tokio::sync::mpsc::channel::<PeerConnectionMessage>(32);
     let server = match DiscretEndpoint::start(PeerConnectionService { sender: tx }, MAX_BUFFER, &[1u8; 33]).await {
         Ok(s) => s, Err(e) => { eprintln!("no loopback QUIC endpoint here ({}): frame stream skipped", e); stats.insert("frame_stream".into(), json!("skipped: no loopback endpoint")); return; } };
-    let del = std::sync::Arc::new(Delivered { info: AtomicUsize::new(0), answers: AtomicUsize::new(0), queries: AtomicUsize::new(0), events: AtomicUsize::new(0) });
+    let del: std::sync::Arc<Delivered> = std::sync::Arc::new(Mutex::new(std::collections::HashMap::new()));
     let d = del.clone();
     tokio::spawn(async move {
         while let Some(m) = rx.recv().await {
-            if let PeerConnectionMessage::NewConnection(_c, _info, _oa, mut ia, _oq, mut iq, _oe, mut ie) = m {
-                d.info.fetch_add(1, Ordering::SeqCst);
+            if let PeerConnectionMessage::NewConnection(_c, info, _oa, mut ia, _oq, mut iq, _oe, mut ie) = m {
+                let id = info.conn_id;
+                d.lock().unwrap().entry(id).or_default().info += 1;
                 let (d1, d2, d3) = (d.clone(), d.clone(), d.clone());
                 tokio::spawn(async move { let _keep = (_c, _oa, _oq, _oe); tokio::join!(
-                    async { while ia.recv().await.is_some() { d1.answers.fetch_add(1, Ordering::SeqCst); } },
-                    async { while iq.recv().await.is_some() { d2.queries.fetch_add(1, Ordering::SeqCst); } },
-                    async { while ie.recv().await.is_some() { d3.events.fetch_add(1, Ordering::SeqCst); } }); });
+                    async { while ia.recv().await.is_some() { d1.lock().unwrap().entry(id).or_default().answers += 1; } },
+                    async { while iq.recv().await.is_some() { d2.lock().unwrap().entry(id).or_default().queries += 1; } },
+                    async { while ie.recv().await.is_some() { d3.lock().unwrap().entry(id).or_default().events += 1; } }); });
             }
         }
     });
@@ -59,30 +63,35 @@ pub async fn frame_streams(rng: &mut Rng, out: &mut Out, stats: &mut serde_json:
     let client = build_endpoint("0.0.0.0:0".parse().unwrap(), generate_x509_certificate("attacker.me"), verifier).unwrap();
     let addr: std::net::SocketAddr = format!("127.0.0.1:{}", server.ipv4_port).parse().unwrap();
 
-    let info = bincode::serialize(&ConnectionInfo { endpoint_id: new_uid(), remote_id: new_uid(), conn_id: new_uid(), meeting_token: [0u8; MEETING_TOKEN_SIZE], peer_verifying_key: vec![1; 33] }).unwrap();
+    let mk_info = |id: [u8; 16]| bincode::serialize(&ConnectionInfo { endpoint_id: [3u8; 16], remote_id: [4u8; 16], conn_id: id, meeting_token: [0u8; MEETING_TOKEN_SIZE], peer_verifying_key: vec![1; 33] }).unwrap();
+    let info = mk_info([7u8; 16]);
     let ans = bincode::serialize(&Answer { id: 2, success: true, complete: false, serialized: vec![1, 2, 3, 4] }).unwrap();
     let qry = bincode::serialize(&QueryProtocol { id: 7, query: SyncQuery::Nodes(new_uid(), vec![new_uid()]) }).unwrap();
     let evt = bincode::serialize(&RemoteEvent::RoomDataChanged(new_uid())).unwrap();
 
     // one connection: bytes for the event stream's first frame (ConnectionInfo), then bytes per stream
-    let reset = || { for c in [&del.info, &del.answers, &del.queries, &del.events] { c.store(0, Ordering::SeqCst); } };
-    let run_conn = |info_bytes: Vec<u8>, a: Vec<u8>, q: Vec<u8>, e: Vec<u8>, want: Option<(usize, usize, usize, usize)>| { let (client, name, del) = (client.clone(), name.clone(), del.clone()); async move {
+    // `id` = the connection id the ConnectionInfo bytes carry (None: they do not decode)
+    let run_conn = |info_bytes: Vec<u8>, a: Vec<u8>, q: Vec<u8>, e: Vec<u8>, id: Option<[u8; 16]>, want: Option<(usize, usize, usize, usize)>| { let (client, name, del) = (client.clone(), name.clone(), del.clone()); async move {
+        if let Some(id) = id { del.lock().unwrap().remove(&id); }
         let conn = match tokio::time::timeout(CALL_TIMEOUT, async { client.connect(addr, &name).map_err(|e| e.to_string())?.await.map_err(|e| e.to_string()) }).await { Ok(Ok(c)) => c, _ => return None };
         let mut ss = vec![];
         for flag in [1u8, 2, 3] { let (mut s, r) = conn.open_bi().await.ok()?; s.write_u8(flag).await.ok()?; ss.push((s, r)); }
         ss[2].0.write_all(&info_bytes).await.ok()?;
-        // the streams' bytes are only read once the connection was accepted: give it a moment
         tokio::time::sleep(Duration::from_millis(15)).await;
         let _ = ss[0].0.write_all(&a).await; let _ = ss[1].0.write_all(&q).await; let _ = ss[2].0.write_all(&e).await;
         for s in ss.iter_mut() { let _ = s.0.finish(); }
-        // let the readers drain what was sent, then close: pending read_exact calls fail
-        let mut last = (0, 0, 0, 0); let mut stable = 0;
-        for _ in 0..200 { tokio::time::sleep(Duration::from_millis(8)).await;
-            let now = (del.info.load(Ordering::SeqCst), del.answers.load(Ordering::SeqCst), del.queries.load(Ordering::SeqCst), del.events.load(Ordering::SeqCst));
-            if Some(now) == want { last = now; break; }
-            if now == last { stable += 1; if stable >= 5 { break; } } else { stable = 0; last = now; } }
+        // every stream is finished: the readers reach its end and stop, start_accepted returns or the
+        // collector lets go of the connection, and the server side closes it: that is the signal that
+        // everything sent has been consumed (no timing guess); a probe only waits for its frame
+        let read = |del: &Delivered| { let c = id.and_then(|id| del.lock().unwrap().get(&id).copied()).unwrap_or_default(); (c.info, c.answers, c.queries, c.events) };
+        if want.is_some() {
+            for _ in 0..600 { if Some(read(&del)) == want { break; } tokio::time::sleep(Duration::from_millis(5)).await; }
+        } else if tokio::time::timeout(Duration::from_secs(3), conn.closed()).await.is_err() {
+            SLOW.fetch_add(1, Ordering::SeqCst);
+        }
         conn.close(0u32.into(), b"");
-        Some(last)
+        tokio::time::sleep(Duration::from_millis(5)).await;
+        Some(read(&del))
     } };
 
     let mut cases: Vec<(Vec<u8>, Vec<u8>, Vec<u8>, Vec<u8>, String)> = vec![];
@@ -114,15 +123,21 @@ pub async fn frame_streams(rng: &mut Rng, out: &mut Out, stats: &mut serde_json:
         cases.push((ok_info.clone(), vec![], s, vec![], "random query stream".into()));
     }
     let mut big = 0usize; let mut delivered_total = 0usize;
+    let mut serial = 0u64;
     for (ib, a, q, e, what) in cases {
-        reset();
+        // give the connection its own id: patch the 16 id bytes inside the ConnectionInfo payload when they are there
+        serial += 1;
+        let mut id_bytes = [0u8; 16]; id_bytes[..8].copy_from_slice(&serial.to_be_bytes()); id_bytes[8] = 0xC1;
+        let mut ib = ib;
+        if ib.len() >= 4 + 48 { ib[4 + 32..4 + 48].copy_from_slice(&id_bytes); }
+        let sent_id = ref_parse(&ib).first().and_then(|f| f.clone()).and_then(|(len, avail, payload)| if avail >= len as usize { bincode::deserialize::<ConnectionInfo>(&payload).ok().map(|c| c.conn_id) } else { None });
         MAX_ALLOC.store(0, Ordering::SeqCst);
-        let got = run_conn(ib.clone(), a.clone(), q.clone(), e.clone(), None).await;
+        let got = run_conn(ib.clone(), a.clone(), q.clone(), e.clone(), sent_id, None).await;
         let largest = MAX_ALLOC.load(Ordering::SeqCst);
         let (i, da, dq, de) = got.unwrap_or((9, 9, 9, 9));
         // probe: a fresh well-formed connection must deliver its query frame
-        reset();
-        let p = run_conn(ok_info.clone(), vec![], frame(&qry), vec![], Some((1, 0, 1, 0))).await;
+        let mut pid = id_bytes; pid[8] = 0xC2;
+        let p = run_conn(frame(&mk_info(pid)), vec![], frame(&qry), vec![], Some(pid), Some((1, 0, 1, 0))).await;
         let probe = matches!(p, Some((1, 0, 1, 0))) as i64;
         if largest >= ALLOC_BOUND { big += 1; }
         delivered_total += da + dq + de;
@@ -140,8 +155,8 @@ pub async fn frame_streams(rng: &mut Rng, out: &mut Out, stats: &mut serde_json:
 pub async fn ingest_date_stream(rng: &mut Rng, out: &mut Out, stats: &mut serde_json::Map<String, serde_json::Value>) {
     const MAX_MS: i64 = 8210266876799999;
     let model = "ing { Doc { name: String } }";
-    let mut dates: Vec<(i64, &str)> = vec![(0, "now"), (MAX_MS, "last millisecond of the calendar"), (MAX_MS + 1, "K10 first millisecond beyond the calendar"), (i64::MAX, "K10 i64::MAX"), (-1, "before the rights exist"), (i64::MIN, "i64::MIN: before the rights exist")];
-    for _ in 0..scale(6, 60) { dates.push((match rng.below(4) { 0 => MAX_MS - rng.below(1_000_000) as i64, 1 => MAX_MS + 1 + rng.below(1_000_000_000) as i64, 2 => i64::MAX - rng.below(1000) as i64, _ => -(rng.below(1 << 40) as i64) }, "random")); }
+    let mut dates: Vec<(i64, &str)> = vec![(0, "now"), (MAX_MS - 86_400_000, "last millisecond of the day before the last"), (MAX_MS - 86_399_999, "K10 first millisecond of the last day of the calendar"), (MAX_MS, "K10 last millisecond of the calendar"), (MAX_MS + 1, "K10 first millisecond beyond the calendar"), (i64::MAX, "K10 i64::MAX"), (-1, "before the rights exist"), (i64::MIN, "i64::MIN: before the rights exist")];
+    for _ in 0..scale(6, 60) { dates.push((match rng.below(4) { 0 => MAX_MS - rng.below(200_000_000) as i64, 1 => MAX_MS + 1 + rng.below(1_000_000_000) as i64, 2 => i64::MAX - rng.below(1000) as i64, _ => -(rng.below(1 << 40) as i64) }, "random")); }
     let mut writer_deaths = 0usize;
     let mut inst: Option<(Inst, [u8; 16], Node, i64)> = None;
     for (delta, what) in dates {
@@ -167,6 +182,10 @@ pub async fn ingest_date_stream(rng: &mut Rng, out: &mut Out, stats: &mut serde_
         n.id = new_uid(); n.mdate = mdate; n.cdate = *t0;
         let nti = NodeToInsert { id: n.id, node: Some(n), ..Default::default() };
         let o = call(i.app.add_nodes(*room_id, vec![nti])).await;
+        // have the daily log computed now (it is computed after every local mutation anyway): the
+        // request goes through the same writer queue as the write probe that follows
+        i.app.compute_daily_log().await;
+        tokio::time::sleep(Duration::from_millis(40)).await;
         // a dead writer never answers: a short timeout is enough here
         let w = tokio::time::timeout(Duration::from_secs(4), i.app.mutate(r#"mutate { c14probe.Probe { name: "w" } }"#, None)).await;
         let pr = matches!(w, Ok(Ok(_))) as i64;
